@@ -139,6 +139,30 @@ func captureRun(r *sim.R, focus string) *sim.Violation {
 			bursts = append(bursts, tb)
 		}
 	}
+	// one C20 run in forty sees a port scan: 16 400-18 000 one-packet flows (distinct destination
+	// ports) on the interface within one interval, so that whatever the flow log does differently
+	// once its maps are large happens at the next rotations (sizes are knobs: a table that never
+	// grows beyond a handful of entries explores one regime only)
+	if focus == "C20" && len(ifaces) == 1 && t.Draw(40) == 0 {
+		b := burst{at: []time.Duration{10 * time.Second, 120 * time.Second, 301 * time.Second}[t.Draw(3)], iface: ifaces[0]}
+		v4 := !allowV6 || t.Draw(3) != 0
+		a, bb := hostsV4[0], hostsV4[1]
+		if !v4 {
+			a, bb = hostsV6[0], hostsV6[1]
+		}
+		proto := []byte{6, 17}[t.Draw(2)]
+		for j, n := 0, 16400+t.Draw(1600); j < n; j++ {
+			p := pkt{v4: v4, proto: proto, sip: a, dip: bb, sport: 40000, dport: uint16(1000 + j), size: 60, kind: "ok", tag: tag}
+			if proto == 6 {
+				p.aux = 0x02
+			}
+			tag++
+			b.pkts = append(b.pkts, p)
+			allPkts = append(allPkts, p)
+		}
+		bursts = append(bursts, b)
+		r.Probe("scan_burst_fills_the_flow_map")
+	}
 	sort.SliceStable(bursts, func(i, j int) bool { return bursts[i].at < bursts[j].at })
 	var ops []ctlOp
 	for i, n := 0, t.Draw(5); i < n; i++ {
@@ -147,8 +171,10 @@ func captureRun(r *sim.R, focus string) *sim.Violation {
 	sort.SliceStable(ops, func(i, j int) bool { return ops[i].at < ops[j].at })
 	endAt := 620*time.Second + time.Duration(t.Draw(3))*100*time.Second
 	r.Event("buffer limit %d, %d conversations, %d packets in %d bursts, %d controller calls, end at %v, schedule %s", bufLimit, nConv, len(allPkts), len(bursts), len(ops), endAt, w.sc.Strategy())
-	for _, p := range allPkts {
-		r.Note("%s", p)
+	for i, p := range allPkts {
+		if i < 2000 {
+			r.Note("%s", p)
+		}
 	}
 
 	cfg := &config.Config{DB: config.DBConfig{Path: wdb, EncoderType: "lz4"}, Interfaces: config.Ifaces{}}
